@@ -11,11 +11,24 @@ PROPS["C05"] = dict(
                "Linux AF_* values for DLT_NULL. Only protocol-legal option/extension sizes are generated (<= 40 option bytes, AH ICV multiple of 4, quoted datagram <= 548 bytes for ICMPv4 errors). "
                "Tags are demanded only where libtins has a tag for the payload class; checksums only where the statement lists them; 802.3 frames are not required to be padded.",
     phases=[dict(name="sweep", harness="c05.cpp", flavor="asan", mode="sweep", cases=dict(quick=1952 + 9606 * 2, thorough=1952 + 9606 * 8)),
-            dict(name="random", harness="c05.cpp", flavor="asan", mode="random", cases=dict(quick=60000, thorough=1500000))],
+            dict(name="random", harness="c05.cpp", flavor="asan", mode="random", cases=dict(quick=100000, thorough=1500000))],
     rule="sweep: case = (stack in {IPv4,IPv6}x{TCP,UDP,ICMP echo}, payload length 0..1600, variant: 0 plain over Ethernet, >0 random options/extension headers/VLAN/raw-IP link) plus Ethernet-padding shapes x payload 0..60; "
          "random: case = layer spec drawn from the stack grammar + 2..5 history steps (payload/address/option changes, L4 replacement, VLAN insertion, clone, zero-sum steering, re-parse); "
          "distinct = distinct (link type, layer kinds, option kinds and sizes, payload size); non-trivial = every case serializes at least once and every derived field of every layer is compared",
-    floors=dict(any={"distinct": 1000}),
+    floors=dict(any={"distinct": 30000, "serializations_checked": 200000, "steps:mutated": 80000, "pcap_predicates": 800000, "bpf_programs_compiled": 100000,
+                     "pcap_true_expected": 300000, "pcap_false_expected": 300000,
+                     "chk:cksum/ip": 80000, "chk:cksum/tcp": 40000, "chk:cksum/udp": 40000, "chk:cksum/icmp": 15000, "chk:cksum/icmp6": 12000, "chk:cksum/radiotap": 5000,
+                     "chk:length/ip": 80000, "chk:length/ip6": 50000, "chk:length/udp": 40000, "chk:length/dot3": 8000, "chk:length/pppoe": 10000, "chk:length/eapol": 5000,
+                     "chk:length/icmp": 5000, "chk:length/icmp6": 4000,
+                     "chk:hdrlen/ip": 80000, "chk:hdrlen/tcp": 80000, "chk:hdrlen/ip6": 30000, "chk:hdrlen/ah": 3000, "chk:hdrlen/radiotap": 8000, "chk:hdrlen/llc": 5000,
+                     "chk:tag/eth": 80000, "chk:tag/vlan": 40000, "chk:tag/ip": 60000, "chk:tag/ip6": 60000, "chk:tag/snap": 10000, "chk:tag/sll": 5000, "chk:tag/loop": 8000,
+                     "chk:tag/mpls": 8000, "chk:tag/llc": 3000, "chk:tag/ah": 2000,
+                     "chk:pad/eth": 200000, "eth-padded-frames": 10000, "chk:pad/icmp": 1000, "chk:pad/icmp6": 400,
+                     "sum-ffff/udp": 2000, "udp-zero-to-ffff": 2000, "sum-ffff/tcp": 2000, "sum-ffff/icmp": 1000, "sum-ffff/icmp6": 1000, "sum-near-wrap": 10000,
+                     "reparse_identical": 15000, "reparse_fields_recomputed": 30000, "big_packets": 50,
+                     "sweep:pad": 1952, "sweep:ip/tcp": 3202, "sweep:ip/udp": 3202, "sweep:ip/icmp": 3202, "sweep:ip6/tcp": 3202, "sweep:ip6/udp": 3202, "sweep:ip6/icmp6": 3202,
+                     "pcap:vlan-id": 20000, "pcap:mpls-label": 3000, "pcap:ip-src": 20000, "pcap:ip6-dst": 20000, "pcap:tcp-dport": 8000, "pcap:udp-len": 8000, "pcap:icmp-type": 4000,
+                     "pcap:ip6-protochain": 4000, "pcap:wlan-addr1": 6000, "pcap:pppoes": 1000, "pcap:stp": 2000}),
     assumptions=["field values a user sets explicitly (addresses, ports, ids, ICMP timestamps...) are only used to confirm that a layer lies where the model puts it; their round-trip fidelity is C03/C15",
                  "IP layers at the root always have a non-zero source address (no routing-table lookup)",
                  "when the re-parse builds other layer classes than the builder used, the step is counted (reparse_structure_changed) and not judged"],
